@@ -392,7 +392,7 @@ Definition agrees (t : trace) : bool :=
     texts_eqb (render a) texts
     && (go_abstains a (* name resolution / descriptor references as they were before F26, F27, F29: not modelled *) ||
        match compile16 a, out with
-       | VCompiled d, Compiled items _ _ => builder_valid items && dump_match acl_cmp d items && to_built obs
+       | VCompiled d, Compiled items _ _ _ => builder_valid items && dump_match acl_cmp d items && to_built obs
        | VPanic, Rejected true => true
        | VError, Rejected panicked => negb (to_accepted obs) && (negb panicked || negb (wf a))
        | VInvalid, Rejected false => to_accepted obs && negb (to_built obs)
